@@ -99,6 +99,11 @@ def judge_case13(r, T):
     T.mvi["compared"] += 1
     nrs = len(lay_i)
     T.dist["rowsets=%d" % nrs] += 1
+    ops_ = field(c, "ops") or []
+    T.dist["history: inserts=%d" % sum(1 for o in ops_ if o[0] == "ins")] += 1
+    T.dist["history: deletes=%d" % sum(1 for o in ops_ if o[0] == "del")] += 1
+    T.dist["history: compactions=%d" % sum(1 for o in ops_ if o[0] == "compact")] += 1
+    T.dist["mode=" + ((field(c, "mode") or ["bg"])[0])] += 1
     pk = field(c, "pk")[0]
     pkdecl = field(c, "pkdecl")[0]
     cols = field(c, "cols")
